@@ -57,7 +57,7 @@ func c19Tree(seed uint64, name string) *lib.Build {
 	case "small":
 		b.PutFile("a.bin", rb(3000))
 		b.PutFile(".top-dot", rb(9))
-		b.PutFile("./"[1:]+"..two-dots/x", rb(19))
+		b.PutFile("..two-dots/x", rb(19))
 		b.PutFile("b/c.bin", rb(70000))
 		b.PutFile("b/c.bin.tmp", rb(900))
 		b.PutFile("b/c.bin.part", rb(50))
